@@ -442,7 +442,7 @@ done:
     vf_poly_free(&P);
 }
 
-/* F5 witness (known_findings.json): a 5-gon at res 1 whose first vertex falls in the sliver between the
+/* witness of the repaired defect F5 (known_findings.json): a 5-gon at res 1 whose first vertex falls in the sliver between the
  * great-circle and the planar reading of a cell edge */
 static void witness_f5(void) {
     static LatLng v[5] = {{-0.68459359172457235, 0.23592516284676812}, {-0.68617920147087641, 0.28750299278603336}, {-0.68509845876072961, 0.31423287666733607},
@@ -455,7 +455,10 @@ static void witness_f5(void) {
         for (int i = 0; i < 64; i++)
             if (out[i] == 0x81d17ffffffffffULL) found = 1;
     vfa_reset();
-    vf_witness("F5", !found, "5-gon at res 1 with four of five vertices 0.05 rad inside 81d17ffffffffff: OVERLAPPING mode %s that cell", found ? "returns" : "does not return");
+    /* F5 is repaired (known_findings.json): the witness is an ordinary case now */
+    vf_add("witness.F5_cases", 1);
+    if (!found)
+        vf_violation("overlap-missed", "polygonToCellsExperimental", 0xF5, "overlap-first-vertex", "5-gon at res 1 with four of five vertices 0.05 rad inside 81d17ffffffffff: OVERLAPPING mode does not return that cell");
 }
 
 static void run(void) {
